@@ -114,6 +114,23 @@ def gen_case(seed, cfg, index=0):
                 k = r.randrange(nfake)
                 prog.append(["reg", k, r.randrange(len(fakes[k]["backends"]))])
         threads.append(prog[:6])
+    if r.random() < 0.12:
+        # per-operation shared state: one thread repeats a call (most recent key of that operation), another thread makes a call of the
+        # SAME einx operation with a different key; one of them is parked somewhere inside the registry / cache / api code
+        by_op = {}
+        for cid, m_ in enumerate(MENU):
+            by_op.setdefault(m_[0], []).append(cid)
+        op_ = r.choice(sorted(o for o, c in by_op.items() if len(c) >= 2))
+        c1, c2 = r.sample(by_op[op_], 2)
+        threads = [[["call", c1, None], ["call", c1, None]], [["call", c2, None]]]
+        if nthreads == 3:
+            threads.append([["call", c2, None], ["call", c1, None]])
+        used_calls = {c1, c2}
+        policy_override = {"kind": "stall", "file": r.choice(["_src/util/lru_cache.py", "_src/frontend/api.py", "_src/frontend/backend.py"]), "k": r.randint(1, 220), "m": r.choice([3, 8, 20]),
+                           "p": r.choice([0.01, 0.003]), "seed": r.randrange(1 << 30)}
+        mode = 0.0  # everything warm: the window is in the cached path
+    else:
+        policy_override = None
     used = sorted(used_calls)
     if mode < 0.5:
         warm = used
@@ -131,6 +148,8 @@ def gen_case(seed, cfg, index=0):
         d = r.choice([1, 2, 3])
         pts = [[f"T{r.randrange(nthreads)}", int(10 ** r.uniform(0, 4.6))] for _ in range(d)]
         policy = {"kind": "pct", "points": pts, "seed": r.randrange(1 << 30)}
+    if policy_override:
+        policy = policy_override
     return {"seed": seed, "threads": threads, "warm": warm, "fakes": fakes, "policy": policy, "opcode": r.random() < float(cfg.get("opcode_p", 0.0)) and False}  # opcode granularity is disabled: see DESIGN §7.5 (not replayable on CPython 3.12)
 
 
